@@ -318,7 +318,17 @@ def check_case(ctx, case, nsample=1500):
             return
         # removal
         try:
-            tc2 = dig(col, wgs, mode, list(remove), reused=bool(case.get('reused')))
+            shared = list(remove)
+            if remove and (case.get('pseed', 0) % 5) < 2:
+                # the same removal list object was already handed to another column (several columns configured with one skip list)
+                ctx.count('remove.list_object', 'shared-with-an-earlier-dig')
+                try:
+                    dig(col, wgs, mode, shared)
+                except Exception:  # noqa: judged below on the column under measurement
+                    pass
+            else:
+                ctx.count('remove.list_object', 'fresh')
+            tc2 = dig(col, wgs, mode, shared, reused=bool(case.get('reused')))
             got = [t.block for t in tc2]
             raised = None
         except IndexError as e:
